@@ -1,6 +1,6 @@
 import FluentProofs.SerializerOutCr3
 /-!
-# Serializer lemmas, part 25: `finishElements` on well-shaped placeholders, CRLF sources (C04)
+# Serializer lemmas, part 25: `finishElements` on well-shaped placeholders, any source (C04)
 -/
 namespace FluentProofs.Ser
 open FluentModel FluentModel.Syntax FluentModel.Syntax.Ser FluentProofs.Parser
@@ -52,10 +52,10 @@ theorem fin_text_genC {s : Src} {c : Option Nat} {lnb i : Nat} {E : PSt} {a b in
         (fun h0 => hfL h0 t (by omega) htb (Or.inl hat))).toC
       rw [spanBytes_getLast (by omega) (by omega)]
       have hgo : t = trimEndGo s a' (b - a') b := by rw [← ht]; rfl
-      obtain ⟨x, hx, x1, x2, _⟩ := trimEndGo_last s a' (b - a') b (Nat.le_refl _) hbs (by rw [← hgo]; omega)
+      obtain ⟨x, hx, x1, x2, x3⟩ := trimEndGo_last s a' (b - a') b (Nat.le_refl _) hbs (by rw [← hgo]; omega)
       rw [← hgo] at hx
       rw [hx]
-      exact ⟨fun h0 => x1 (by cases h0; rfl), fun h0 => x2 (by cases h0; rfl)⟩
+      exact ⟨fun h0 => x1 (by cases h0; rfl), fun h0 => x2 (by cases h0; rfl), fun h0 => x3 (by cases h0; rfl)⟩
     · -- not the last element
       have hni : (lnb == i) = false := by simp; omega
       simp only [hni, Bool.false_eq_true, if_false, mapPat, PatElem.mapS]
